@@ -207,7 +207,7 @@ func defOpts(d meta.Definition, budget int, a Alpha) []opt {
 	}
 	switch x := d.(type) {
 	case *meta.Choice:
-		for _, id := range x.CaseIdents() {
+		for _, id := range CaseIds(x) {
 			c := x.Cases()[id]
 			for _, o := range seqOpts(c.DataDefinitions(), budget, a) {
 				if o.size > 0 {
